@@ -526,8 +526,13 @@ Step0(o, e) ==
     \* a failed socket write: after a TRANSIENT failure (announced by SockFail "once") the tunnel goes on - a failed
     \* acknowledgement is merely logged, a failed request makes its Send fail, a failed heartbeat may lead to a reconnect
     \* (a failed write of the acknowledgement that was due counts as the attempt: none is missing)
-    [] e.k = "OutErr" -> [oc EXCEPT !.cause = TRUE, !.termCause = @ \/ ~oc.failOnce, !.failOnce = FALSE,
-                                    !.ackDue = IF e.svc = "TunnelRes" /\ e.ch = oc.ackDue.ch /\ e.seq = oc.ackDue.seq THEN [ch |-> -1, seq |-> -1] ELSE @]
+    \* (a connect request that could not be written is the attempt the property asks for, and it stays unanswered: the
+    \* reconnect is no longer owed and the tunnel may terminate)
+    [] e.k = "OutErr" -> [oc EXCEPT !.cause = TRUE, !.termCause = @ \/ ~oc.failOnce \/ e.svc = "ConnReq", !.failOnce = FALSE,
+                                    !.reconnDue = IF e.svc = "ConnReq" THEN FALSE ELSE @,
+                                    !.ackDue = IF e.svc = "TunnelRes" /\ e.ch = oc.ackDue.ch /\ e.seq = oc.ackDue.seq THEN [ch |-> -1, seq |-> -1] ELSE @,
+                                    \* (likewise the disconnect response that was due: the reconnect stays owed)
+                                    !.discDue = IF e.svc = "DiscRes" /\ e.ch = oc.discDue THEN -1 ELSE @]
     [] e.k = "SendCall" -> [oc EXCEPT !.called = @ \cup {e.pid}, !.senders = @ \cup {e.g},
                                       !.afterDead = IF oc.dead /\ oc.exact /\ oc.idles > oc.deadIdle THEN @ \cup {e.pid} ELSE @,
                                       !.afterClose = IF oc.closeRet THEN @ \cup {e.pid} ELSE @]
